@@ -1203,6 +1203,10 @@ func c14(mode, in, out string) error {
 		return c14ObjRecord(in, out)
 	case "concurrent":
 		return c14Concurrent(in, out)
+	case "files":
+		return c14FilesMode(in, out)
+	case "filerecord":
+		return c14FileRecord(in, out)
 	}
 	return fmt.Errorf("c14: unknown mode %s", mode)
 }
